@@ -61,7 +61,7 @@ def gen_cases(tier, seed):
 
 def required(tier):
     return {"pos.decided": 1500, "pos.class.witness_vn_other_len": 1000, "pos.class.p2pk": 40, "neg.decided": 2500,
-            "neg.class.unknown_b58_version": 250, "neg.class.key_65_with_02": 20, "neg.class.key_offcurve": 20,
+            "neg.class.unknown_b58_version": 250, "neg.class.key_65_with_02": 20, "neg.class.key_offcurve": 20, "neg.class.key_coord_plus_p": 20,
             "neg.class.bad_checksum": 200, "neg.class.segwit_invalid": 200}
 
 
@@ -233,6 +233,10 @@ def run_case(kind, params, ctx):
             muts.append(("key_offcurve", b"\x02" + x.to_bytes(32, "big")))
             muts.append(("key_offcurve", b"\x04" + pt[0].to_bytes(32, "big") + ((pt[1] + 1) % secp.P).to_bytes(32, "big")))
             muts.append(("key_y_ge_p", b"\x04" + pt[0].to_bytes(32, "big") + (secp.P + 1).to_bytes(32, "big")))
+            sx = next(x for x in range(1 + i, 200) if secp.SECP.lift_x(x) is not None)
+            spt = secp.SECP.lift_x(sx)
+            muts.append(("key_coord_plus_p", b"\x04" + (sx + secp.P).to_bytes(32, "big") + spt[1].to_bytes(32, "big")))
+            muts.append(("key_coord_plus_p", b"\x02" + (sx + secp.P).to_bytes(32, "big")))
             for cls, d in muts:
                 _negative(ctx, d, cls)
         return
